@@ -1,7 +1,10 @@
 use crate::channel::{ReceiverChannel, SenderChannel};
 use crate::store_impl::ActionOp;
 use crate::{Subscriber, Subscription};
+#[cfg(not(kani))]
 use std::time::Instant;
+#[cfg(kani)]
+use crate::verif_kani::rt::Instant;
 
 pub(crate) struct StateIteratorSubscriber<T>
 where
